@@ -210,7 +210,7 @@ def oracle_file(case) -> list:
     ta = st.torsion_angles
     n_tab = 0
     inverted = 0
-    wrong = []
+    wrong, undefined, missing = [], [], []
     # reference values for the table from the v2 segments themselves (same atoms), own formula
     for seg in st.connected_residues:
         for i, res in enumerate(seg):
@@ -227,7 +227,15 @@ def oracle_file(case) -> list:
                     a = seg[k].find_atom(an) if 0 <= k < len(seg) else None
                     pts.append(None if a is None else np.array(a.coordinates, dtype=float))
                 val = row[name]
-                if any(p is None for p in pts) or val is None or (isinstance(val, float) and math.isnan(val)):
+                absent = val is None or (isinstance(val, float) and math.isnan(val))
+                if any(p is None for p in pts):
+                    # one of the four defining atoms does not exist (first/last residue of a connected segment,
+                    # missing atom): the torsion is not defined, so any number in the table is a wrong value
+                    if not absent:
+                        undefined.append((str(res), name, float(val)))
+                    continue
+                if absent:
+                    missing.append((str(res), name))
                     continue
                 ref = ref_dihedral(*pts)
                 n_tab += 1
@@ -254,6 +262,10 @@ def oracle_file(case) -> list:
         out.append(D("C18:v2:sign-inverted", f"{case['file']}: {inverted} of {n_tab} torsion-table values equal -IUPAC (e.g. chi of A-form residues reads +160 instead of -160 deg)"))
     if wrong:
         out.append(D("C18:v2-table:wrong-value", f"{case['file']}: {wrong[:3]}"))
+    if undefined:
+        out.append(D("C18:v2-table:value-for-undefined-torsion", f"{case['file']}: a number is reported although a defining atom does not exist: {undefined[:3]}"))
+    if missing:
+        out.append(D("C18:v2-table:defined-torsion-missing", f"{case['file']}: all four defining atoms exist but the table is empty: {missing[:3]}"))
     case["_counts"] = (n_chi, n_tab)
     seen, uniq = set(), []
     for d in out:
